@@ -1,5 +1,6 @@
 """C17 - hierarchical clustering (clauses: SELECT on the merge step and the linkage update functions, GUARD on mean)"""
 import re
+from engines import receiver_calls
 from engines import classify_selection, float_div_sites
 from prov import Prov, params_of, field_names
 
@@ -149,7 +150,7 @@ def run(ck, prog, ctx):
                 others = [a for a in at if a[0] == "op" and a[1] in ("Sub", "Mul", "Div")]
                 ok = ps == {1, 2} and adds and not others
                 ck.ob("SELECT", "average/update", bool(ok), "the mean's numerator is %s" % ("the sum of both arguments" if ok else "not a plain sum of both arguments (params %s)" % sorted(ps)), where=fb.where(d["line"]))
-    ck.floor("SELECT", "selection sites", n, 3)
+    ck.floor("SELECT", "selection sites", n, 3, soft=True)
 
     # ---- size bookkeeping: the size of a merge is size(first node) + size(second node)
     ck.rule("ROLE", "index roles in the cluster-size bookkeeping (DESIGN 3.4)")
@@ -208,10 +209,42 @@ def run(ck, prog, ctx):
         return
     pvl = Prov(prog, inline=False, mutflow=False)
 
+    # the merged pair may reach the clusterers through a private helper that returns it unchanged (`merge_closest_clusters() -> Option<(lhs, rhs)>`)
+    pair_src = {}
+    cc_id = next((x.id for x in prog.production() if x.id.endswith("::closest_clusters") and x.kind == "AssocFn"), None)
+    for hb_ in prog.production():
+        if cc_id is None or hb_.kind != "AssocFn" or hb_.id == cc_id or hb_.exported or hb_.reachable or hb_.impl_trait or not hb_.id.startswith(LINK):
+            continue
+        if not any(t_.callee.res == cc_id for _, t_ in hb_.calls()):
+            continue
+        mp = {}
+        for k_ in ("0", "1"):
+            got = set()
+            for path in ((("dc", "Some"), ("f", "0", "std::option::Option"), ("f", k_, "tuple")), (("f", k_, "tuple"),)):
+                for a_ in pvl.of_return(hb_, path):
+                    if a_[0] == "call" and a_[1].endswith("::closest_clusters"):
+                        fp = tuple(e[1] for e in a_[-1] if e[0] == "f")
+                        if len(fp) == 2 and fp[0] == "0":
+                            got.add(fp[1])
+                if got:
+                    break
+            if len(got) == 1:
+                mp[k_] = next(iter(got))
+        if mp:
+            pair_src[re.sub(r"<'\w+>", "<'a>", hb_.id)] = mp
+            pair_src[hb_.id] = mp
+
     def comp_in(host, atoms):
         """K0 / K1: component of the merged pair returned by closest_clusters; IDX: the enumerate index of the live-set loop"""
         out = set()
         for a in atoms:
+            if a[0] == "call" and a[1] in pair_src:
+                p = tuple(e[1] for e in a[-1] if e[0] == "f")
+                if len(p) == 2 and p[0] == "0" and p[1] in pair_src[a[1]]:
+                    out.add("K" + pair_src[a[1]][p[1]])
+                elif len(p) < 2:
+                    out.add("K?")
+                continue
             if a[0] == "call" and a[1].endswith("::closest_clusters"):
                 p = tuple(e[1] for e in a[-1] if e[0] == "f")
                 if len(p) == 2 and p[0] == "0":
@@ -369,7 +402,7 @@ def run(ck, prog, ctx):
                         it = host.blocks[a[4]].term
                         taken |= {x for x in comp_in(host, pvl.of_operand(host, it.args[1])) if x.startswith("K")}
         ck.ob("PAIR", nm + "/takes-both", taken == {"K0", "K1"}, "%s retires %s from `sets` (expected key.0 and key.1)" % (nm, " and ".join("key." + k[1:] for k in sorted(taken)) or "nothing"), where=host.where())
-    ck.floor("TABLE", "retain predicates", n_ret, 1)
+    ck.floor("TABLE", "retain predicates", n_ret, 1, soft=True)
 
     # ---- index of the new cluster: distances to it are stored under (live index, index of the pushed set)
     ck.rule("FIELD", "the key of a new distance is (live index, index the merged set is pushed at): Vec::len taken before the push, or len - 1 after it (DESIGN 3.9)")
@@ -396,6 +429,10 @@ def run(ck, prog, ctx):
                 ck.undecided("FIELD", nm + "/new-index", "new index does not come from one Vec::len", where=host.where(t.line))
                 continue
             len_bb = src[0][4]
+            via_part = [c_.callee.method for c_ in receiver_calls(host, pvm, host.blocks[len_bb].term.args[0]) if c_.callee.method not in ("deref", "deref_mut", "as_slice", "as_ref", "borrow", "as_mut_slice")]
+            if via_part:
+                ck.undecided("FIELD", nm + "/new-index", "the length is taken of a part of `sets` (through `%s`): its relation to the index of the pushed set is not classified" % via_part[0], where=host.where(t.line))
+                continue
             allc = c1 if "IDX" not in k1 else c0
             minus1 = any(a[0] == "op" and a[1].startswith("Sub") for a in allc) and any(a[0] == "const" and str(a[2]).startswith("1") for a in allc)
             other_arith = any(a[0] == "op" and not a[1].startswith("Sub") for a in allc) or (any(a[0] == "op" for a in allc) and not minus1)
